@@ -28,29 +28,82 @@ fn co(v: &E2) -> [F; 2] {
 }
 
 /// Ok(None): every returned coefficient is right for both selector values; Ok(Some(detail)): a mismatch or a failing run.
+/// Native values of every handle for given inputs (the model's Den).
+fn values(calls: &[Value], flag: u64, ext_vals: &[E2], base_vals: &[F]) -> BTreeMap<u64, E2> {
+    let mut val: BTreeMap<u64, E2> = BTreeMap::new();
+    val.insert(1, E2::from_u64(flag));
+    for (i, v) in ext_vals.iter().enumerate() {
+        val.insert(2 + i as u64, *v);
+    }
+    for (i, v) in base_vals.iter().enumerate() {
+        val.insert(4 + i as u64, E2::from(*v));
+    }
+    for c in calls {
+        let args: Vec<u64> = c["args"].as_array().unwrap().iter().map(|x| x.as_u64().unwrap()).collect();
+        let ret: Vec<u64> = c["ret"].as_array().unwrap().iter().map(|x| x.as_u64().unwrap()).collect();
+        match c["op"].as_str().unwrap() {
+            "recompose" => {
+                val.insert(ret[0], e2(co(&val[&args[0]])[0], co(&val[&args[1]])[0]));
+            }
+            "select" => {
+                val.insert(ret[0], if flag == 1 { val[&args[0]] } else { val[&args[1]] });
+            }
+            "decompose" => {
+                let xv = co(&val[&args[0]]);
+                for q in 0..2 {
+                    val.insert(ret[q], E2::from(xv[q]));
+                }
+            }
+            _ => {}
+        }
+    }
+    val
+}
+
+/// Ok(None): every returned coefficient is right for both selector values; Ok(Some(detail)): a mismatch or a failing run.
 pub fn run_case(calls: &[Value], rng: &mut StdRng) -> Result<Option<Value>, String> {
     let rf = |rng: &mut StdRng| F::from_u64(rng.random::<u64>() >> 1);
-    let base_vals: Vec<F> = (0..4).map(|_| rf(rng)).collect();
-    let ext_vals: Vec<E2> = (0..2).map(|_| e2(rf(rng), rf(rng))).collect();
+    let base0: Vec<F> = (0..4).map(|_| rf(rng)).collect();
+    let ext0: Vec<E2> = (0..2).map(|_| e2(rf(rng), rf(rng))).collect();
     for flag in [0u64, 1] {
+        // inputs that satisfy the program's connects: an extension input tied to a computed value takes that value, two
+        // recompositions of inputs tied together force the second pair of base inputs to the first
+        let (mut base_vals, mut ext_vals) = (base0.clone(), ext0.clone());
+        for _ in 0..4 {
+            let val = values(calls, flag, &ext_vals, &base_vals);
+            let mut changed = false;
+            for c in calls.iter().filter(|c| c["op"] == "connect") {
+                let a = c["args"][0].as_u64().unwrap();
+                let b = c["args"][1].as_u64().unwrap();
+                if a == 2 || a == 3 {
+                    if ext_vals[(a - 2) as usize] != val[&b] {
+                        ext_vals[(a - 2) as usize] = val[&b];
+                        changed = true;
+                    }
+                } else if base_vals[2] != base_vals[0] || base_vals[3] != base_vals[1] {
+                    base_vals[2] = base_vals[0];
+                    base_vals[3] = base_vals[1];
+                    changed = true;
+                }
+            }
+            if !changed {
+                break;
+            }
+        }
+        let val = values(calls, flag, &ext_vals, &base_vals);
         let mut b = CircuitBuilder::<E2>::new();
         let mut h: BTreeMap<u64, ExprId> = BTreeMap::new();
-        let mut val: BTreeMap<u64, E2> = BTreeMap::new();
         let mut pubs: Vec<E2> = Vec::new();
-        // prelude: 1 flag, 2..3 extension inputs, 4..7 base inputs
         let f = b.public_input();
         b.assert_bool(f);
         h.insert(1, f);
-        val.insert(1, E2::from_u64(flag));
         pubs.push(E2::from_u64(flag));
         for (i, v) in ext_vals.iter().enumerate() {
             h.insert(2 + i as u64, b.public_input());
-            val.insert(2 + i as u64, *v);
             pubs.push(*v);
         }
         for (i, v) in base_vals.iter().enumerate() {
             h.insert(4 + i as u64, b.public_input());
-            val.insert(4 + i as u64, E2::from(*v));
             pubs.push(E2::from(*v));
         }
         let mut expect: Vec<(String, F, Value)> = Vec::new();
@@ -63,13 +116,15 @@ pub fn run_case(calls: &[Value], rng: &mut StdRng) -> Result<Option<Value>, Stri
                     let (i, j) = (get(&h, args[0])?, get(&h, args[1])?);
                     let r = b.recompose_base_coeffs_to_ext::<F>(&[i, j]).map_err(|e| format!("recompose: {e:?}"))?;
                     h.insert(ret[0], r);
-                    val.insert(ret[0], e2(co(&val[&args[0]])[0], co(&val[&args[1]])[0]));
                 }
                 "select" => {
                     let (t, s) = (get(&h, args[0])?, get(&h, args[1])?);
                     let r = b.select(f, t, s);
                     h.insert(ret[0], r);
-                    val.insert(ret[0], if flag == 1 { val[&args[0]] } else { val[&args[1]] });
+                }
+                "connect" => {
+                    let (x, y) = (get(&h, args[0])?, get(&h, args[1])?);
+                    b.connect(x, y);
                 }
                 "decompose" => {
                     let x = get(&h, args[0])?;
@@ -82,7 +137,6 @@ pub fn run_case(calls: &[Value], rng: &mut StdRng) -> Result<Option<Value>, Stri
                         let tag = format!("c{ci}_{q}");
                         b.tag(*cexpr, tag.clone()).map_err(|e| format!("tag: {e:?}"))?;
                         h.insert(ret[q], *cexpr);
-                        val.insert(ret[q], E2::from(xv[q]));
                         expect.push((tag, xv[q], json!({"call": ci, "coefficient": q, "of_handle": args[0]})));
                     }
                 }
